@@ -383,8 +383,78 @@ def _key(k):
     return NAMES.i(k)
 
 
-def _bb(evname, votes, h, prev=None):
-    """black box: proportional distribution of h seats -> {party id | ('tie', ids…): seats}"""
+def _divisor(evname):
+    """textbook divisor sequences (own definitions, nothing taken from votelib)"""
+    if evname == 'd_hondt':
+        return lambda k: Fraction(k + 1)
+    if evname == 'sainte_lague':
+        return lambda k: Fraction(2 * k + 1)
+    if evname == 'd_hondt_mod':
+        return lambda k: Fraction(3, 2) if k == 0 else Fraction(k + 1)
+    if evname == 'sainte_lague_mod':
+        return lambda k: Fraction(7, 5) if k == 0 else Fraction(2 * k + 1)
+    raise KeyError(evname)
+
+
+def _textbook(evname, votes, h):
+    """the proportional distribution of h seats by the textbook rule, computed with exact Fractions from scratch:
+    {id | ('tie', ids…): seats}.  Returns None where the textbook has nothing to say (no house, nobody has votes, a
+    tie that involves parties without votes) - the caller then asks votelib, which only matters for the KIND of refusal
+    or for the degenerate all-tie outcome.
+      divisor methods: the h largest quotients v/d(k); if the h-th and (h+1)-th largest are equal, the parties whose next
+      quotient equals that value share the seats that are left as one Tie;
+      Hare largest remainder: whole quotas of q = total/h, the seats left go to the largest remainders, ties likewise."""
+    vs = {i: Fraction(v) for i, v in votes.items()}
+    if h < 1 or not vs or any(v < 0 for v in vs.values()) or sum(vs.values()) <= 0:
+        return None
+    pos = {i: v for i, v in vs.items() if v > 0}
+    if evname == 'hare_lr':
+        q = sum(vs.values()) / h
+        seats = {i: int(v / q) for i, v in vs.items()}              # whole quotas (v >= 0: floor)
+        left = h - sum(seats.values())
+        rem = sorted(((v / q - seats[i], i) for i, v in vs.items()), key=lambda t: -t[0])
+        if left > len(rem):
+            return None
+        out = {i: k for i, k in seats.items() if k}
+        if left == 0:
+            return out
+        cut = rem[left - 1][0]
+        if left < len(rem) and rem[left][0] == cut:
+            above = [i for r, i in rem if r > cut]
+            level = [i for r, i in rem if r == cut]
+            for i in above:
+                out[i] = out.get(i, 0) + 1
+            out[('tie',) + tuple(sorted(level))] = left - len(above)
+        else:
+            for r, i in rem[:left]:
+                out[i] = out.get(i, 0) + 1
+        return out
+    d = _divisor(evname)
+    quots = sorted(((v / d(k), i, k) for i, v in pos.items() for k in range(h + 1)), key=lambda t: -t[0])
+    cut = quots[h - 1][0]
+    above = [t for t in quots if t[0] > cut]
+    level = [t for t in quots if t[0] == cut]
+    out = {}
+    for _, i, _ in above:
+        out[i] = out.get(i, 0) + 1
+    if len(above) + len(level) <= h or len(quots) == h:
+        for _, i, _ in level:
+            out[i] = out.get(i, 0) + 1
+        if sum(out.values()) != h:
+            return None
+        return out
+    out[('tie',) + tuple(sorted({i for _, i, _ in level}))] = h - len(above)
+    return out
+
+
+def _bb(evname, votes, h, prev=None, names=None):
+    """black box: proportional distribution of h seats -> {party id | ('tie', ids…): seats}; from the textbook rule
+    (`_textbook`); votelib itself is asked only where the textbook is silent (refusals, nobody has votes)"""
+    ni = (names or NAMES).i if not callable(names) else names
+    if prev is None:
+        tb = _textbook(evname, {ni(k): v for k, v in votes.items()}, h)
+        if tb is not None:
+            return tb
     ev = _ev(evname)
     try:
         if prev is None:
@@ -393,7 +463,8 @@ def _bb(evname, votes, h, prev=None):
             r = call_with_timeout(lambda: ev.evaluate(votes, h, prev_gains=prev), 5)
     except Exception as e:      # noqa
         raise _Refused(err_name(e))
-    return {_key(k): v for k, v in r.items()}
+    import votelib.evaluate.core as vc
+    return {(('tie',) + tuple(sorted(ni(c) for c in k)) if isinstance(k, vc.Tie) else ni(k)): v for k, v in r.items()}
 
 
 def _expected_level(evname, votes, n, direct, fuel):
@@ -489,12 +560,9 @@ def _cty_results(case, cvotes, h):
     if capp in ('fixed', 'uniform'):
         app = {_cn(case, c): k for c, k in case['app']}
     else:
-        ev = _ev(capp)
         ctot = {c: sum(dv.values()) for c, dv in cvotes.items()}
-        try:
-            app = call_with_timeout(lambda: ev.evaluate(ctot, h), 5)
-        except Exception as e:      # noqa
-            raise _Refused(err_name(e))
+        byid = _bb(capp, ctot, h, names=lambda x: _ci(case, x))
+        app = {c: byid.get(_ci(case, c), 0) for c in cvotes}
     return {cty: (_bb(case['evaluator'], dv, app.get(cty, 0)) if app.get(cty, 0) != 0 else {}) for cty, dv in cvotes.items()}
 
 
